@@ -53,6 +53,23 @@ def gen_clock(rng):
     return kind, base, step
 
 
+def gen_identity(rng, nh, p=0.45):
+    """Python protocol dressing of the scenario's handles and worlds, a dimension of every loop
+    scenario: distinct handle objects that compare equal (value objects: one equality group, or
+    two), hashing alike or unhashable (`__eq__` only), falsy handles and falsy worlds (`__bool__`
+    False, `__len__` 0).  The scenario means the same with or without these lines."""
+    if rng.random() >= p:
+        return []
+    groups = ['a'] * nh if rng.random() < 0.6 else [rng.choice(['a', 'b', '-']) for _ in range(nh)]
+    hmode = rng.choice(['g', 'g', 'none'])
+    out = []
+    for h in range(nh):
+        truth = rng.choice(['t', 't', 'bool', 'len'])
+        world = rng.choice(['t', 't', 'bool', 'len'])
+        out.append(f'identity {h} eq={groups[h]} hash={hmode} truth={truth} world={world}')
+    return out
+
+
 def gen_scenario(rng, frame_w=FRAME_W, react_p=0.35, max_handles=3, max_starts=3, max_frames=8):
     nh = rng.randint(1, max_handles)
     lines, procs = [], []
@@ -67,6 +84,7 @@ def gen_scenario(rng, frame_w=FRAME_W, react_p=0.35, max_handles=3, max_starts=3
         procs.append(ks)
         ld = [f'{rng.randrange(4)}:{rng.randrange(10)}' for _ in range(rng.choice([0, 0, 1, 2]))]
         lines.append(f'handle {h} procs={",".join(ks)} load={",".join(ld) or "-"}')
+    lines += gen_identity(rng, nh)
     if rng.random() < react_p:
         for n in sorted(rng.sample(range(0, 30), rng.randint(1, 5))):
             lines.append(f'react {n} {gen_act(rng, nh, REACT_W)}')
@@ -100,6 +118,10 @@ def small_scope(react_acts=('none',)):
         if kind == 'u' and act == 'lswitch':
             continue                     # direct API calls are scripted for processors only
         lines = [f'handle 0 procs=p,{kind},p load=1:7', 'handle 1 procs=p,p load=2:3,0:4']
+        if (pre + tgt + cc + cn) % 2:
+            # every other case with value-equal (and here unhashable, falsy) handles and falsy worlds
+            lines += ['identity 0 eq=a hash=none truth=bool world=len',
+                      'identity 1 eq=a hash=none truth=len world=bool']
         if pre:
             lines.append('op load 1')
         lines.append('op switch 0 0 0')
